@@ -362,10 +362,11 @@ class Check(object):
             self.cov['samples'].append(x)
 
     def match_known(self, key):
-        """key: dict.  A finding matches when all fields of its 'key' equal the violation's."""
+        """key: dict.  A finding matches when all fields of its 'key' equal the violation's
+        (a list-valued field of the finding matches any of its members)."""
         for f in self.findings:
             k = f['key']
-            if all(key.get(a) == b for a, b in k.items()):
+            if all((key.get(a) in b) if isinstance(b, list) else (key.get(a) == b) for a, b in k.items()):
                 return f
         return None
 
